@@ -1030,7 +1030,7 @@ fn pipe_case(rng: &mut Rng, idx: usize, stats: &mut Stats) -> Option<(String, St
     let p = match rng.below(10) { 0..=6 => gen_text(rng), _ => gen_hex_flat(rng) };
     let data = gen_buffer(&p, rng, 48);
     // `$a at N`: the literal is anchored and verified at that offset only
-    let anchored = matches!(&p, Pat::Text(_, m) if m.xor.is_none() && m.b64.is_none() && m.b64wide.is_none() && !m.nocase) && rng.chance(1, 5);
+    let anchored = matches!(&p, Pat::Text(_, m) if m.xor.is_none() && m.b64.is_none() && m.b64wide.is_none() && !m.nocase) && rng.chance(1, 2);
     let noise = if rng.chance(1, 4) { *rng.pick(&[7usize, 40, 70]) } else { 0 };
     let src = if anchored {
         let at = if rng.chance(1, 2) { 0 } else { rng.below(data.len() as u64 + 1) as usize };
